@@ -538,6 +538,8 @@ def typed_sweep():
       ('all-fields', TI(i=one([L_(1), L_(2)]), s=one([L_('x'), L_('y')]), f=['F', 0.0, 4.0, None, None], e=one([L_(1), L_(2), L_(3)])), False),
       ('oneof-of-lists-in-List', TL(l=one([['l', [L_(1), L_(2)]], ['l', [L_(3), L_(4), L_(5)]]])), False),
       ('oneof-of-manyof-in-List', TL(l=one([['M', 2, [L_(1), L_(2), L_(3)], True, True, None, None], ['l', [L_(7), L_(8), L_(9)]]])), False),
+      ('list-with-oneof-in-List', TL(l=['l', [one([L_(1), L_(2)]), L_(3)]]), False),
+      ('list-with-nested-oneof-in-List', TL(l=['l', [one([L_(1), one([L_(4), L_(5)])]), L_(3), one([L_(6), L_(7)])]]), False),
       ('oneof-in-Dict-field', TL(d=['D', [['k', one([L_(1), L_(2)])]]]), False),
       ('oneof-of-dicts-in-Dict', TL(d=one([['D', [['k', L_(1)]]], ['D', [['k', one([L_(5), L_(6)])]]]])), False),
       ('typed-object-as-candidate', ['D', [['a', one([TI(i=one([L_(1), L_(2)])), L_(None)])]]], False),
@@ -821,6 +823,15 @@ def process_template(job):
   rec.oracle += 1
   if len(s[1]) != active_points(w, t):
     rec.hit('C13/scan/decision-points/%s' % feat, 'the template %s (%s) has %d decision points, the scan must find %d' % (td, wd, len(s[1]), active_points(w, t)), dict(case0, op='dna_spec'))
+  # what the model does not carry of the specification: hints and literal values of every top-level decision point
+  import numbers
+  okh, bad_dp = attempt(lambda: next((str(path) for (path, prim), el in zip(tm.hyper_primitives, sp.elements)
+                                      if el.hints != prim.hints or el.name != prim.name or
+                                      (hasattr(prim, 'candidates') and (len(el.literal_values) != len(prim.candidates) or
+                                       any(isinstance(c, numbers.Number) and l != c for c, l in zip(prim.candidates, el.literal_values))))), None))
+  rec.oracle += 1
+  if not okh or bad_dp is not None:
+    rec.hit('C13/dna_spec/hints-or-literals/%s' % feat, 'the decision point at %r does not carry the hints / name / literal values of its placeholder; template %s (%s)' % (bad_dp if okh else bad_dp, td, wd), dict(case0, op='dna_spec'))
   fin = G.is_finite(s)
   size = G.size(s) if fin else None
   dist = distinguishable(w, t)
